@@ -424,7 +424,7 @@ def h_tetrahedral_movers(eng, resname, centre):
     eng.check(changed == want, "rotates-the-other-substituents-of-atom2", note=f"{resname}: rotate_tetrahedral({atom1.name}, {atom2.name}) with bond list {[a.name for a in partners]} moved {sorted(changed)}, the substituents other than the axis partner are {sorted(want)}")
 
 
-def h_dihedral_record(eng, resname, anglenum):
+def h_dihedral_record(eng, resname, anglenum, recorded=None):
     """after Debump.set_dihedral_angle the recorded torsion (residue.dihedrals[n], from which the NEXT call
     computes its rotation) is the torsion of the coordinates as they are NOW.  utilities.dihedral is an
     uninterpreted function of the four positions it is handed; the rotation result is arbitrary."""
@@ -465,10 +465,16 @@ def h_dihedral_record(eng, resname, anglenum):
         return memo[k]
 
     target = eng.real("target_angle")
+    if recorded is not None:
+        res.dihedrals[anglenum] = recorded  # e.g. exactly 0.0 / -0.0: planar template geometry, or a torsion just set to 0
+        eng.assume(target != recorded)
     sym = [(utilities, "np", shims.NP), (utilities, "dihedral", dihedral), (debump, "int", core.sym_int_t)] if eng.symbolic else []
     with patched(*sym, (debump, "quat", Quat)):
         deb.set_dihedral_angle(res, anglenum, target)
         now = [res.get_atom(n).coords for n in names]
+        if eng.symbolic:
+            fourth = res.get_atom(names[3])
+            eng.check(And(*[core.same(v, w) for v, w in zip((fourth.x, fourth.y, fourth.z), fresh[names[3]])]) if names[3] in fresh else True, "requested-rotation-is-carried-out", note=f"{resname} chi{anglenum + 1}: set_dihedral_angle returned without moving the atoms although the target differs from the recorded torsion {res.dihedrals[anglenum]!r}")
         recorded = res.dihedrals[anglenum]
         if eng.symbolic:
             want = dihedral(*now)  # positions are compared as simplified terms ((new - pivot) + pivot = new)
@@ -495,6 +501,8 @@ def obligations(tier):
         obs.append(Obligation(f"tetrahedral-movers-{resname}-{centre}", h_tetrahedral_movers, dict(resname=resname, centre=centre), group="tetrahedral-movers", time_cap=600))
     for resname, k in (("LYS", 0), ("LYS", 3)) if tier == "quick" else (("LYS", 0), ("LYS", 1), ("LYS", 2), ("LYS", 3), ("SER", 0), ("ARG", 2), ("MET", 1), ("HIS", 1)):
         obs.append(Obligation(f"dihedral-record-{resname}-chi{k + 1}", h_dihedral_record, dict(resname=resname, anglenum=k), group="dihedral-record", time_cap=600))
+    for rec in (0.0, -0.0, 180.0):
+        obs.append(Obligation(f"dihedral-record-LYS-chi2-from-{rec!r}", h_dihedral_record, dict(resname="LYS", anglenum=1, recorded=rec), group="dihedral-record", time_cap=600))
     obs.append(Obligation("jacobi-sorted-nonzero", h_jacobi_sorted, dict(zero_allowed=False), group="jacobi", time_cap=1200))
     obs.append(Obligation("jacobi-sorted-zero-allowed", h_jacobi_sorted, dict(zero_allowed=True), group="jacobi", time_cap=1200))
     return obs
